@@ -179,17 +179,23 @@ fn rows(b: Result<samyama::query::RecordBatch, String>, col_is_node: bool, h_of:
         Err(e) => json!({"err": e}),
         Ok(b) => {
             let mut out: Vec<Value> = vec![];
+            let mut raw: Vec<String> = vec![];
             for r in &b.records {
                 let v = b.columns.first().and_then(|c| r.get(c));
-                out.push(match v {
+                let x = match v {
                     Some(QV::NodeRef(id)) | Some(QV::Node(id, _)) if col_is_node => json!(h_of.get(id).copied().unwrap_or(-1)),
                     Some(QV::Property(p)) => prop_to_halves(p),
+                    Some(QV::Null) => json!(NOM),
                     _ => json!(NOT_A_HALF),
-                });
+                };
+                if x == json!(NOT_A_HALF) {
+                    raw.push(format!("{:?} (columns {:?})", v, b.columns));
+                }
+                out.push(x);
             }
             // a bag: sorted by its JSON text
             out.sort_by_key(|v| v.to_string());
-            json!({"rows": out})
+            if raw.is_empty() { json!({"rows": out}) } else { json!({"rows": out, "raw": raw}) }
         }
     }
 }
